@@ -1106,3 +1106,29 @@ Proof.
   cbn [r_got r_frame r_payload b_data]. repeat split; try reflexivity.
   unfold buf_len in Hp. destruct (b_data (r_payload r)); [reflexivity|discriminate].
 Qed.
+
+(* a complete frame whose ciphertext does not decrypt under the current nonce (= number of frames
+   accepted so far) is rejected in the same call: InvalidData, nothing delivered, the transport is not
+   touched, the nonce does not advance and the frame is not skipped *)
+Lemma frame_complete_some fr L : frame_complete fr = Ok (Some L) -> LENF + L <= buf_len fr.
+Proof.
+  unfold frame_complete. destruct (LENF <=? buf_len fr); [|discriminate].
+  destruct (buf_prefix2 fr) as [p| |]; cbn [bind]; try discriminate.
+  destruct (Nat.leb_spec (LENF + dec16 p) (buf_len fr)) as [Hle|Hgt]; intros H; inversion H; subst.
+  exact Hle.
+Qed.
+
+Lemma c13_bad_frame_rejected dec r n cap L :
+  buf_len (r_payload r) = 0 -> frame_complete (r_frame r) = Ok (Some L) ->
+  dec (length (r_got r)) (firstn L (skipn LENF (buf_as_slice (r_frame r)))) = None ->
+  exists r', poll_read dec r n cap = Ok (r', n, PErr EInvalidData) /\
+    r_got r' = r_got r /\ r_frame r' = r_frame r /\ b_data (r_payload r') = [].
+Proof.
+  intros Hp Hfc Hdec. pose proof (frame_complete_some _ _ Hfc) as Hle.
+  unfold poll_read, poll_read_payload. rewrite Hp. change (0 <? 0) with false. cbv iota.
+  unfold poll_read_frame. cbn [read_frame]. rewrite Hfc. cbn [bind].
+  destruct (Nat.ltb_spec (buf_len (r_frame r)) (LENF + L)) as [Hlt|_]; [lia|].
+  rewrite Hdec.
+  match goal with |- context [MAXMSG <? ?x] => destruct (MAXMSG <? x) end; cbn [bind]; eexists; (split; [reflexivity|]);
+    cbn [r_got r_frame r_payload buf_reset b_data]; repeat split; reflexivity.
+Qed.
